@@ -205,8 +205,8 @@ static void encode_op(int path) {
     int fits = n <= SIZE_MAX / 3 && 3 * n <= SIZE_MAX - len;
     if (fits && (n > REAL_MAX / 4 || len > REAL_MAX)) {
         /* a process cannot back the verifier's 2^50-byte views; the function treats every length alike */
-        printf("input of %zu bytes at length %zu reduced to %zu bytes at length %zu\n", n, len, n % 4096 + 64, len % 4096);
-        n = n % 4096 + 64; len %= 4096;
+        printf("input of %zu bytes at length %zu reduced to %zu bytes at length %zu\n", n, len, n % 4096 + 64, len ? len % 4096 + 8 : 0);
+        n = n % 4096 + 64; len = len ? len % 4096 + 8 : 0;
     }
     if (!fits && len > REAL_MAX) len = REAL_MAX;
     if (cap > REAL_MAX) cap = cap % 4096;
@@ -478,8 +478,8 @@ int main(int argc, char **argv) {
         } else {
             if (n > REAL_MAX || len > REAL_MAX) {
                 /* a process cannot back the verifier's 2^50-byte views; the function treats every length alike */
-                printf("input of %zu bytes at length %zu reduced to %zu bytes at length %zu\n", n, len, n % 4096 + 64, len % 4096);
-                n = n % 4096 + 64; len %= 4096;
+                printf("input of %zu bytes at length %zu reduced to %zu bytes at length %zu\n", n, len, n % 4096 + 64, len ? len % 4096 + 8 : 0);
+                n = n % 4096 + 64; len = len ? len % 4096 + 8 : 0;
             }
             if (cap > REAL_MAX) cap = cap % 4096;
             if (cap < len) cap = len;
@@ -591,34 +591,42 @@ int main(int argc, char **argv) {
         /* emit: neutral letters between the marks (a gap longer than 6 bytes is shortened to 6: a process cannot back the 2^55-byte
          * texts the verifier likes, and only the order of the delimiters matters); the port text is the decimal text of the
          * value the abstract number parser returned (or not a number) */
-        uint8_t *t = malloc(8 * 8 + 64);
-        size_t n = 0, prev = 0;
-        int port_done = 0;
-        for (unsigned i = 0; i <= nm; ++i) {
-            size_t upto = i < nm ? mk[i].pos : n0;
-            if (!port_done && port_from != SIZE_MAX && prev == port_from && upto >= port_from) { /* the segment [port_from, A) */
-                size_t pl = A - port_from;
-                if (pl > 0) {
-                    if (get("r_pu_ok", 1)) n += (size_t)sprintf((char *)t + n, "%" PRIu64, get("r_pu_val", 80));
-                    else { memcpy(t + n, "8x", 2); n += 2; }
+        uint64_t pu_val = get("r_pu_val", 80);
+        for (int variant = 0; variant < 2 && !s_fail; ++variant) {
+            /* second variant: the same delimiters with a port value that is in range (the unit's number parser is abstract: any
+             * outcome goes with any port text, so the counterexample stands for both) */
+            if (variant == 1) { if (!(get("r_pu_ok", 1) && pu_val > 65535 && port_from != SIZE_MAX && A > port_from)) break; pu_val %= 65536; }
+            uint8_t *t = malloc(8 * 8 + 64);
+            size_t n = 0, prev = 0;
+            int port_done = 0;
+            for (unsigned i = 0; i <= nm; ++i) {
+                size_t upto = i < nm ? mk[i].pos : n0;
+                if (!port_done && port_from != SIZE_MAX && prev == port_from && upto >= port_from) { /* the segment [port_from, A) */
+                    size_t pl = A - port_from;
+                    if (pl > 0) {
+                        if (get("r_pu_ok", 1)) n += (size_t)sprintf((char *)t + n, "%" PRIu64, pu_val);
+                        else { memcpy(t + n, "8x", 2); n += 2; }
+                    }
+                    port_done = 1;
+                } else {
+                    size_t gap = upto > prev ? upto - prev : 0;
+                    for (size_t g = 0; g < (gap > 6 ? 6 : gap); ++g) t[n++] = 'a';
                 }
-                port_done = 1;
-            } else {
-                size_t gap = upto > prev ? upto - prev : 0;
-                for (size_t g = 0; g < (gap > 6 ? 6 : gap); ++g) t[n++] = 'a';
+                if (i < nm) { t[n++] = mk[i].c; prev = mk[i].pos + 1; }
             }
-            if (i < nm) { t[n++] = mk[i].c; prev = mk[i].pos + 1; }
+            printf("remaining text rebuilt from the search log: "); show(t, n); printf(" (%zu bytes)\n", n);
+            /* as the text after a scheme, so that the state machine reaches s_parse_authority with exactly this text */
+            uint8_t *full = malloc(n + 4);
+            memcpy(full, "s://", 4);
+            memcpy(full + 4, t, n);
+            check_parse(full, n + 4);
+            /* and on its own (the empty text is left out: aws_uri_init_parse hands a NULL/0 view to memchr, which UBSan reports on
+             * the unchanged tree; so is a text in which the first ':' is followed by '/': that is a scheme) */
+            size_t fc = first_of(t, 0, n, ':');
+            if (n > 0 && (fc == SIZE_MAX || !(fc + 1 < n && t[fc + 1] == '/'))) check_parse(t, n);
+            free(full); free(t);
         }
         (void)UC; (void)PC;
-        printf("remaining text rebuilt from the search log: "); show(t, n > 80 ? 80 : n); printf("%s (%zu bytes)\n", n > 80 ? "..." : "", n);
-        /* as the text after a scheme, so that the state machine reaches s_parse_authority with exactly this text */
-        uint8_t *full = malloc(n + 4);
-        memcpy(full, "s://", 4);
-        memcpy(full + 4, t, n);
-        check_parse(full, n + 4);
-        /* (the empty text is left out: aws_uri_init_parse hands a NULL/0 view to memchr, which UBSan reports on the unchanged tree) */
-        if (n == 0) goto done;
-        if (first_of(t, 0, n, ':') == SIZE_MAX || !(first_of(t, 0, n, ':') + 1 < n && t[first_of(t, 0, n, ':') + 1] == '/')) check_parse(t, n);
     } else if (!strcmp(op, "builder")) {
         const char *pre = has("o.port") || has("o.scheme.len") ? "o" : "options";
         char key[64];
